@@ -41,10 +41,20 @@ pub struct Texts {
     pub pristine: Vec<Vec<u8>>,
 }
 
+pub const STATIC_MARGIN: usize = 64;
+pub const STATIC_GUARD: u8 = 0xBF;
+
 fn leak_static(s: String) -> &'static str {
     // harness-owned *writable* memory, so that a write through the borrowed pointer is
-    // observable (pristine copy comparison) instead of a SIGSEGV
-    Box::leak(s.into_boxed_str())
+    // observable (pristine copy comparison) instead of a SIGSEGV. The text sits between two
+    // margins of a fixed pattern (a UTF-8 continuation byte): a read past either end sees the
+    // same byte in every thread and every re-execution, and a write there is noticed by
+    // `statics_intact`.
+    let mut buf = vec![STATIC_GUARD; s.len() + 2 * STATIC_MARGIN];
+    buf[STATIC_MARGIN..STATIC_MARGIN + s.len()].copy_from_slice(s.as_bytes());
+    let buf: &'static mut [u8] = Box::leak(buf.into_boxed_slice());
+    // SAFETY: the middle part is a copy of `s`
+    unsafe { std::str::from_utf8_unchecked(&buf[STATIC_MARGIN..STATIC_MARGIN + s.len()]) }
 }
 
 impl Texts {
@@ -77,7 +87,11 @@ impl Texts {
         None
     }
     pub fn statics_intact(&self) -> bool {
-        self.statics.iter().zip(&self.pristine).all(|(s, p)| s.as_bytes() == &p[..])
+        self.statics.iter().zip(&self.pristine).all(|(s, p)| {
+            // SAFETY: `leak_static` put STATIC_MARGIN guard bytes on both sides of the text
+            let whole = unsafe { std::slice::from_raw_parts(s.as_ptr().sub(STATIC_MARGIN), s.len() + 2 * STATIC_MARGIN) };
+            s.as_bytes() == &p[..] && whole[..STATIC_MARGIN].iter().chain(&whole[STATIC_MARGIN + s.len()..]).all(|&b| b == STATIC_GUARD)
+        })
     }
 }
 
